@@ -32,7 +32,7 @@ pub fn check(h: &History) -> CheckResult {
     let mut outputs: Vec<u8> = Vec::new();
     // start: a generated key or a given one
     let (sk, mut locked, gen_pub_line): ([u8; 32], String, Option<String>) = if h.from_generate {
-        let r = sb.cmd(&["key", "generate", "-o", "k.txt", "--env-pass"]).env("KESTREL_PASSWORD", pw(h.first_pw)).stdin(In::Bytes(b"me\n".to_vec())).run();
+        let r = sb.cmd(&["key", "generate", "-o", "k.txt", "--env-pass"]).env("KESTREL_PASSWORD", pw(h.first_pw)).env("KESTREL_NEW_PASSWORD", "stale value of an earlier change-pass").stdin(In::Bytes(b"me\n".to_vec())).run();
         ensure!(r.code == Some(0), "key generate failed: {}", r.describe());
         outputs.extend_from_slice(&r.stdout); outputs.extend_from_slice(&r.stderr);
         let text = String::from_utf8(sb.read("k.txt").ok_or("no key file")?).map_err(|e| e.to_string())?;
@@ -114,12 +114,19 @@ pub fn check(h: &History) -> CheckResult {
 pub fn strat() -> impl Strategy<Value = History> {
     let step = prop_oneof![5 => any::<u8>().prop_map(|new_pw| Step::Change { new_pw }), 1 => any::<u8>().prop_map(|new_pw| Step::ChangeWrongOld { new_pw }), 1 => Just(Step::ChangeMissingNew), 2 => Just(Step::ExtractPub), 1 => Just(Step::ExtractPubWrongPw), 1 => Just(Step::UseKey)];
     (prop::bool::weighted(0.3), any::<u64>(), any::<u8>(), proptest::collection::vec(gen::env_password_strategy(), 2..5), proptest::collection::vec(step, 1..7))
-        .prop_map(|(from_generate, key, first_pw, mut passwords, steps)| { passwords.dedup(); History { from_generate, key, first_pw, passwords, steps } })
+        .prop_map(|(from_generate, key, first_pw, mut passwords, steps)| { passwords.dedup();
+            // near-duplicates in the same set: P, P+CR, P+blank (an unlock that "forgives" trailing white space would confuse them)
+            if key % 3 == 0 { let p = passwords[0].clone(); passwords.push(format!("{}\r", p)); } if key % 5 == 0 { let p = passwords[0].clone(); passwords.push(format!("{} ", p)); }
+            History { from_generate, key, first_pw, passwords, steps } })
 }
 
 pub fn run(ctx: &Ctx) {
     set_rule("C16", "histories over a generated password set (empty, ASCII, Unicode, 62..200 bytes): start from `key generate` or a given key locked by the working tree's own lock, then 1..6 steps of change-pass (right old password), change-pass with a wrong old password / without KESTREL_NEW_PASSWORD (must fail and print no key), extract-pub (right / wrong password), and encrypt with the current string in a keyring. Model (sk, current password, salts seen): after each change the printed string unlocks with the new password to the same sk, the salt is new, an earlier non-equivalent password fails; extract-pub prints the keyring encoding of the X25519 public key of sk, equal to the line written at generation; no output contains sk raw, hex or base64 (any alignment). Non-trivial = >= 2 password changes or a repeated password; distinct by hash of the history");
     ctx.assume("Linux, no terminal; passwords via KESTREL_PASSWORD / KESTREL_NEW_PASSWORD (UTF-8 without NUL)");
     ctx.shrink_iters.store(30, std::sync::atomic::Ordering::Relaxed);
+    ctx.sse_vec("near_duplicate_passwords", "P+CR -> P, P -> P+CR, P+blank -> P: the earlier spelling must stop working", vec![
+        History { from_generate: false, key: 1, first_pw: 1, passwords: vec!["s3cret".into(), "s3cret\r".into()], steps: vec![Step::Change { new_pw: 0 }, Step::ExtractPub] },
+        History { from_generate: false, key: 2, first_pw: 0, passwords: vec!["s3cret".into(), "s3cret\r".into()], steps: vec![Step::Change { new_pw: 1 }, Step::Change { new_pw: 0 }] },
+        History { from_generate: true, key: 3, first_pw: 1, passwords: vec!["pw".into(), "pw ".into()], steps: vec![Step::Change { new_pw: 0 }, Step::ExtractPub] }], check);
     ctx.pbt("change_pass_histories", ctx.n(160, 2_500), strat, check);
 }
